@@ -5,7 +5,7 @@ import Lm.Inv.CoreGuards
 
 Proved here about the sending side (`tell_if`, `tell_pubsub_msg`, the auto-free holder).  The end-to-end
 conservation statement over whole histories (every copy is delivered once or discarded for a stated reason) is **not**
-proved as a theorem (the sending side of a broadcast is: `C02_broadcast_exactly_the_eligible`); it is checked on explored histories by the correspondence and by the oracle (see DESIGN.md). -/
+proved as a theorem (the sending side of a broadcast and of a publication is: `C02_broadcast_exactly_the_eligible`, `C02_publish_exactly_the_subscribed`); it is checked on explored histories by the correspondence and by the oracle (see DESIGN.md). -/
 namespace Lm.Props.C02
 open Lm.Core
 
@@ -190,6 +190,153 @@ theorem C02_broadcast_exactly_the_eligible (s : St) (msg : Msg) (h : msg.topic =
         copy.sender = msg.sender ∧ copy.topic = msg.topic ∧ md'.state = md.state) := by
   rw [C02_broadcast_is_the_table_walk s msg h]
   exact C02_broadcast_one_copy_each msg s.tableOrder s (C02_table_walk_visits_once s) k md hm
+
+/-- one step of `tell_subscribers` -/
+def pubStep (msg : Msg) (t : String) (s : St) (r : ModId) : St :=
+  match s.mods[r]? with
+  | some md =>
+    if md.state == .running || md.state == .paused then
+      match fetchSub s md t with
+      | some sub => tellIf s msg (.sub sub) r
+      | none => s
+    else s
+  | none => s
+
+def pubWalk (s : St) (msg : Msg) (t : String) (l : List ModId) : St := l.foldl (pubStep msg t) s
+
+theorem tellIf_srcs (s : St) (msg : Msg) (key : TellKey) (r : ModId) : (tellIf s msg key r).srcs = s.srcs ∧ (tellIf s msg key r).rx = s.rx := by
+  have hr : ∀ st : St, (holderRef st msg.holder).srcs = st.srcs ∧ (holderRef st msg.holder).rx = st.rx := by
+    intro st; unfold holderRef; split
+    · exact ⟨rfl, rfl⟩
+    · split <;> exact ⟨rfl, rfl⟩
+  have hu : ∀ (st : St) (x : Msg), (destroyMsg st x).srcs = st.srcs ∧ (destroyMsg st x).rx = st.rx := by
+    intro st x; unfold destroyMsg holderUnref; split
+    · exact ⟨rfl, rfl⟩
+    · split
+      · simp only; split <;> exact ⟨rfl, rfl⟩
+      · exact ⟨rfl, rfl⟩
+  unfold tellIf
+  split
+  · exact ⟨rfl, rfl⟩
+  · split
+    · simp only
+      split
+      · split
+        · unfold St.updMod
+          split
+          · exact ⟨(hr s).1, (hr s).2⟩
+          · exact hr s
+        · exact ⟨((hu _ _).1).trans (hr s).1, ((hu _ _).2).trans (hr s).2⟩
+      · exact ⟨((hu _ _).1).trans (hr s).1, ((hu _ _).2).trans (hr s).2⟩
+    · exact ⟨rfl, rfl⟩
+
+theorem fetchSub_congr (s s' : St) (md : Mod) (t : String) (h1 : s'.srcs = s.srcs) (h2 : s'.rx = s.rx) : fetchSub s' md t = fetchSub s md t := by
+  unfold fetchSub
+  simp only [h1, h2]
+
+theorem pubStep_other (msg : Msg) (t : String) (s : St) (r k : ModId) (h : k ≠ r) :
+    (pubStep msg t s r).mods[k]? = s.mods[k]? ∧ (pubStep msg t s r).srcs = s.srcs ∧ (pubStep msg t s r).rx = s.rx := by
+  unfold pubStep
+  split
+  · split
+    · split
+      · exact ⟨C02_nobody_else s msg _ r k h, tellIf_srcs s msg _ r⟩
+      · exact ⟨rfl, rfl, rfl⟩
+    · exact ⟨rfl, rfl, rfl⟩
+  · exact ⟨rfl, rfl, rfl⟩
+
+theorem pubWalk_untouched (msg : Msg) (t : String) : ∀ (l : List ModId) (s : St) (k : ModId), k ∉ l →
+    (pubWalk s msg t l).mods[k]? = s.mods[k]?
+  | [], _, _, _ => rfl
+  | r :: rs, s, k, hk => by
+    have h1 : k ≠ r := fun e => hk (by simp [e])
+    have h2 : k ∉ rs := fun e => hk (by simp [e])
+    show (pubWalk (pubStep msg t s r) msg t rs).mods[k]? = _
+    rw [pubWalk_untouched msg t rs _ k h2, (pubStep_other msg t s r k h1).1]
+
+/-- **Publish: exactly the subscribed, once each.**  Walking a duplicate-free list of modules, a module of the list that is
+RUNNING or PAUSED, has a subscription matching the topic (`fetch_sub`: exact topic first, then the first matching pattern in
+table order) and room in its mailbox gets exactly one copy, at the end, tagged with that subscription; a module that is not
+eligible or has no matching subscription, and every module outside the list, is untouched. -/
+theorem C02_publish_one_copy_each (msg : Msg) (t : String) : ∀ (l : List ModId) (s : St), l.Nodup → ∀ (k : ModId) (md : Mod), s.mods[k]? = some md →
+    (k ∉ l → (pubWalk s msg t l).mods[k]? = some md) ∧
+    (k ∈ l → ((md.state ≠ .running ∧ md.state ≠ .paused) ∨ fetchSub s md t = none) → (pubWalk s msg t l).mods[k]? = some md) ∧
+    (k ∈ l → (md.state = .running ∨ md.state = .paused) → ∀ sub, fetchSub s md t = some sub → ∀ q, md.pipe = some q →
+      q.length + md.pipeSkip < pipeCap →
+      ∃ copy md', (pubWalk s msg t l).mods[k]? = some md' ∧ md'.pipe = some (q ++ [copy]) ∧ copy.payload = msg.payload ∧
+        copy.sender = msg.sender ∧ copy.topic = msg.topic ∧ copy.sub = some sub ∧ md'.state = md.state)
+  | [], s, _, k, md, hm => ⟨fun _ => hm, ⟨fun h => absurd h (by simp), fun h => absurd h (by simp)⟩⟩
+  | r :: rs, s, hn, k, md, hm => by
+    have hn' := List.nodup_cons.mp hn
+    refine ⟨fun hk => ?_, fun hk hne => ?_, fun hk he sub hf q hp hroom => ?_⟩
+    · rw [pubWalk_untouched msg t (r :: rs) s k hk]; exact hm
+    · show (pubWalk (pubStep msg t s r) msg t rs).mods[k]? = _
+      rcases List.mem_cons.mp hk with rfl | hk'
+      · rw [pubWalk_untouched msg t rs _ k hn'.1]
+        unfold pubStep
+        simp only [hm]
+        rcases hne with hne | hne
+        · simp [hne.1, hne.2, hm]
+        · split
+          · simp [hne, hm]
+          · exact hm
+      · have hkr : k ≠ r := fun e => hn'.1 (e ▸ hk')
+        obtain ⟨o1, o2, o3⟩ := pubStep_other msg t s r k hkr
+        have hm' : (pubStep msg t s r).mods[k]? = some md := by rw [o1]; exact hm
+        have hne' : (md.state ≠ .running ∧ md.state ≠ .paused) ∨ fetchSub (pubStep msg t s r) md t = none := by
+          rcases hne with h | h
+          · exact Or.inl h
+          · exact Or.inr (by rw [fetchSub_congr s _ md t o2 o3]; exact h)
+        exact (C02_publish_one_copy_each msg t rs _ hn'.2 k md hm').2.1 hk' hne'
+    · show ∃ copy md', (pubWalk (pubStep msg t s r) msg t rs).mods[k]? = some md' ∧ _
+      rcases List.mem_cons.mp hk with rfl | hk'
+      · have hst : (md.state == MState.running || md.state == MState.paused) = true := by rcases he with h | h <;> simp [h]
+        have hstep : pubStep msg t s k = tellIf s msg (.sub sub) k := by
+          unfold pubStep; simp only [hm, hst, if_true, hf]
+        obtain ⟨c, md', h1, h2, h3, h4, h5, _, h6, _, _⟩ := C02_eligible_gets_one_copy s msg (.sub sub) k md q hm he hp hroom
+        refine ⟨c, md', ?_, h2, h5, h3, h4, ?_, h6⟩
+        · rw [pubWalk_untouched msg t rs _ k hn'.1, hstep]; exact h1
+        · -- the copy is tagged with the subscription
+          have : (tellIf s msg (.sub sub) k).mods[k]? = some { md with pipe := some (q ++ [{ msg with sub := some sub, rcpt := some k }]) } := by
+            have hr : (holderRef s msg.holder).mods = s.mods := by
+              unfold holderRef; split
+              · rfl
+              · split <;> rfl
+            have hlt : k < s.mods.length := (List.getElem?_eq_some_iff.mp hm).1
+            have hget : s.mods[k] = md := (List.getElem?_eq_some_iff.mp hm).2
+            unfold tellIf
+            simp only [hm, hst, if_true, hp, hroom, TellKey.subOf]
+            unfold St.updMod
+            simp [hr, hlt, hget]
+          rw [this] at h1
+          have e := Option.some.inj h1
+          rw [← e] at h2
+          simp at h2
+          rw [← h2]
+      · have hkr : k ≠ r := fun e => hn'.1 (e ▸ hk')
+        obtain ⟨o1, o2, o3⟩ := pubStep_other msg t s r k hkr
+        have hm' : (pubStep msg t s r).mods[k]? = some md := by rw [o1]; exact hm
+        have hf' : fetchSub (pubStep msg t s r) md t = some sub := by rw [fetchSub_congr s _ md t o2 o3]; exact hf
+        exact (C02_publish_one_copy_each msg t rs _ hn'.2 k md hm').2.2 hk' he sub hf' q hp hroom
+
+/-- `m_mod_ps_publish` is that walk over the module table -/
+theorem C02_publish_is_the_table_walk (s : St) (msg : Msg) (t : String) (h : msg.topic = some t) :
+    tellPubsub s msg none = pubWalk s msg t s.tableOrder := by
+  unfold tellPubsub pubWalk
+  simp only [h]
+  rfl
+
+/-- **Publish: exactly the subscribed and eligible recipients, once each** — for `m_mod_ps_publish` -/
+theorem C02_publish_exactly_the_subscribed (s : St) (msg : Msg) (t : String) (h : msg.topic = some t) (k : ModId) (md : Mod)
+    (hm : s.mods[k]? = some md) :
+    (k ∉ s.tableOrder → (tellPubsub s msg none).mods[k]? = some md) ∧
+    (k ∈ s.tableOrder → ((md.state ≠ .running ∧ md.state ≠ .paused) ∨ fetchSub s md t = none) → (tellPubsub s msg none).mods[k]? = some md) ∧
+    (k ∈ s.tableOrder → (md.state = .running ∨ md.state = .paused) → ∀ sub, fetchSub s md t = some sub → ∀ q, md.pipe = some q →
+      q.length + md.pipeSkip < pipeCap →
+      ∃ copy md', (tellPubsub s msg none).mods[k]? = some md' ∧ md'.pipe = some (q ++ [copy]) ∧ copy.payload = msg.payload ∧
+        copy.sender = msg.sender ∧ copy.topic = msg.topic ∧ copy.sub = some sub ∧ md'.state = md.state) := by
+  rw [C02_publish_is_the_table_walk s msg t h]
+  exact C02_publish_one_copy_each msg t s.tableOrder s (C02_table_walk_visits_once s) k md hm
 
 /-- the final flush hands over every pending message that was told directly or broadcast (no subscription involved): the
 one-shot rule (D-03c) can only drop messages that reached the module through a one-shot subscription that already fired -/
